@@ -39,6 +39,64 @@ def native_collect(contract, name, conc, notes):
                       f"inside the map: {inside}, disjoint: {disjoint}"}
 
 
+def native_sizes(shape, k, name):
+    """the generated hierarchy with real multi-element formats of the sizes of
+    vector k ("nB" has n bytes); the real collect(); layout clauses natively"""
+    from contracts import c08_arraymap as S
+    import ebpfcat.ebpf as E
+    sname, amap, pcls, subs = shape
+    real = E.fmtsize
+    sizes = S.CONCRETE_SIZES[k]
+    saved_fmts = {}
+    objs = [pcls()] + [s() for s in subs]
+    objs[0].subprograms = objs[1:]
+    # give every placeholder descriptor the real format "<n>B"
+    descs = set()
+    for o in objs:
+        for c in type(o).__mro__:
+            for v in c.__dict__.values():
+                if isinstance(v, S.ArrayGlobalVarDesc) and isinstance(v.fmt, str) and v.fmt.startswith("@"):
+                    descs.add(v)
+    for d in descs:
+        saved_fmts[d] = d.fmt
+        d.fmt = f"{sizes(int(d.fmt[1:]))}B"
+    try:
+        size = amap.collect(objs[0])
+        rngs = []
+        for i, o in enumerate(objs):
+            for n, _ in S.effective(type(o), amap):
+                d = getattr(type(o), n)
+                if n in o.__dict__:
+                    rngs.append((f"obj{i}.{n}", o.__dict__[n], o.__dict__[n] + real(d.fmt)))
+                else:
+                    rngs.append((f"obj{i}.{n}", None, None))
+    finally:
+        for d, f in saved_fmts.items():
+            d.fmt = f
+    bad = [r for r in rngs if r[1] is None or r[1] < 0 or r[2] > size]
+    srt = sorted(r for r in rngs if r[1] is not None)
+    overlaps = [(a[0], b[0]) for a, b in zip(srt, srt[1:]) if a[2] > b[1]]
+    return {"inputs": {"shape": sname, "sizes": [r[2] - r[1] for r in rngs if r[1] is not None]},
+            "reproduced": bool(bad or overlaps or size % 8),
+            "detail": f"real ArrayMap.collect with formats '<n>B': map size {size}, ranges {rngs}; outside the map "
+                      f"or without storage: {bad}; overlapping: {overlaps}"}
+
+
+def verify_fmtsize(rep):
+    """ebpf.fmtsize under its own contract; the lib model that gives the
+    placeholder formats a symbolic size is switched off for this proof"""
+    from contracts import c08_arraymap as S
+    import ebpfcat.ebpf as E
+    saved = lib.MODELS.pop(id(E.fmtsize), None)
+    try:
+        api.verify(S.fmtsize_contract(), rep, quiet=True,
+                   replay=lambda n, i, nt: {"inputs": i, "reproduced": None,
+                                            "detail": f"ebpf.fmtsize({i.get('fmt')!r}) = {E.fmtsize(i.get('fmt'))}"})
+    finally:
+        if saved is not None:
+            lib.MODELS[id(E.fmtsize)] = saved
+
+
 def program_side(rep, tier):
     from contracts import c08_arraymap as S
     from vc.bpfvc import Env, MapModel
@@ -105,9 +163,17 @@ def run(tier, seed):
               "re-declared name, program with three subprogram instances of two classes); all variable sizes are "
               "symbolic.  User side: formats " + ", ".join(S.USER_FMTS) + "; addresses and map contents symbolic. "
               "Program side: one generated program per format.")
+    verify_fmtsize(rep)
     for sh in S.SHAPES:
         c = S.collect_contract(sh)
         api.verify(c, rep, replay=lambda n, i, nt, c=c: native_collect(c, n, i, nt))
+        # the same shapes with fixed size vectors that include sizes that are
+        # not powers of two (a concrete instance of the symbolic proof; it
+        # yields concrete witnesses when the symbolic run is out of reach)
+        for k in range(len(S.CONCRETE_SIZES)):
+            c = S.collect_contract(sh, concrete=k)
+            api.verify(c, rep, quiet=True,
+                       replay=lambda n, i, nt, sh=sh, k=k: native_sizes(sh, k, n))
     fmts = S.USER_FMTS if tier == "thorough" else ["B", "H", "I", "q", "h", "2I", "3H"]
     for f in fmts:
         api.verify(S.user_get(f), rep, options=OPTS, quiet=True)
